@@ -58,7 +58,11 @@ def gen_doc(rng, depth, maxdepth):
          'kids': []}
     if depth < maxdepth:
         for _ in range(rng.choice([0, 1, 1, 2, 3] if depth == 0 else [0, 0, 1, 2])):
-            s['kids'].append(gen_doc(rng, depth + 1, maxdepth))
+            k = gen_doc(rng, depth + 1, maxdepth)
+            # explicit object names: with / without leading "/", with a blank, numbered like a default name (so the default
+            # numbering has to skip it), a sub-folder name; a small pool, so duplicates (-> ValueError) happen
+            k['name'] = rng.choice([None, None, None, None, u'MyObj', u'/MyObj', u'/Sub obj', u'Object 2', u'/Object 7', u'Obj/x', u'\xe9\u6f22'])
+            s['kids'].append(k)
     return s
 
 
@@ -78,7 +82,12 @@ def gen_package(rng, special=None):
     for n in nums:
         ps['objects'].append({'num': n, 'kind': rng.choice(['text', 'spreadsheet']), 'settings': rng.random() < 0.3,
                               'pics': [(u'Pictures/obj%d.png' % n, u'image/png', bytes([n, 1, 2]).hex())] if rng.random() < 0.5 else [],
-                              'nested': rng.random() < 0.3})
+                              'nested': rng.random() < 0.3, 'files': rng.random() < 0.4})
+    if ps['objects'] and rng.random() < 0.3:
+        # any numbering, any name length: the folder name is what matters now
+        for o, n in zip(ps['objects'], rng.sample([7, 2, 10, 100, 12345, 3], len(ps['objects']))):
+            o['num'] = n
+            o['pics'] = [(u'Pictures/obj%d.png' % n, u'image/png', bytes([n % 256, 1, 2]).hex())] if o['pics'] else []
     if special == 'no-mimetype-member':
         ps['mimetype'] = None
     elif special == 'root-differs':
@@ -132,6 +141,12 @@ def package_parts(ps):
                 add(F + n, op[n], u'text/xml')
         if o['settings']:
             nonempty.append(F + u'settings.xml')
+        if o.get('files'):
+            # other files of the sub-document, and a meta.xml of its own (save() writes none for sub-documents: kept as it is)
+            add(F + u'extra.bin', bytes([o['num'] % 256, 9]), u'application/x-thing')
+            add(F + u'Configurations2/menubar.xml', b'<m/>', u'')
+            man.append((F + u'Configurations2/', u'application/vnd.sun.xml.ui.configuration'))
+            add(F + u'meta.xml', pk.new_real(o['kind'], 1000 + o['num'], False).metaxml().encode('utf-8'), u'text/xml')
         for n, mt, hx in o['pics']:
             add(F + n, bytes.fromhex(hx), mt)
         if o['nested']:
@@ -160,7 +175,9 @@ class Ctx(object):
     def __init__(self):
         self.tmp = tempfile.mkdtemp(prefix='verif-c03-')
         self.nfile = 0
-        self.nid = 100
+        self.nid = 5000
+        self.refused = 0
+        self.bad = []
     def close(self):
         shutil.rmtree(self.tmp, ignore_errors=True)
 
@@ -206,15 +223,28 @@ def build(ctx, spec, m=None):
         m.real.addThumbnail(m.thumb)
     for ks in spec['kids']:
         k = build(ctx, ks)
-        ref = m.real.addObject(k.real)
-        k.folder = k.real.folder
+        before = (list(m.real.childobjects), [x.real.folder for x in k.walk()])
+        try:
+            ref = m.real.addObject(k.real, ks.get('name'))
+        except ValueError:
+            # a name that is already taken: refused, and nothing may have changed
+            ctx.refused += 1
+            if (list(m.real.childobjects), [x.real.folder for x in k.walk()]) != before:
+                ctx.bad.append(('addobject-refusal-not-atomic', 'addObject(%r) raised ValueError but left a trace' % (ks.get('name'),)))
+            continue
         m.kids.append(k); m.refs.append(ref)
     return m
 
 
-def mirror_of_loaded(doc):
+def refresh_folders(top):
+    """the `folder` attributes as they are now (attaching a document moves everything already attached to it)"""
+    for x in top.walk():
+        x.folder = x.real.folder
+
+
+def mirror_of_loaded(doc, keys):
     """mirror of a document as load() left it (ids as the model's load assigns them), markers read from its parts"""
-    m = pk.dump_real(doc, 0)
+    m = pk.dump_real(doc, keys)
     for x in m.walk():
         ms = pk.markers_in(x.real.contentxml())
         x.marker = ms[0] if len(ms) == 1 else -1
@@ -233,33 +263,53 @@ def run_case(chk, drv, case, oracle_only=False):
             pspec, nonempty = package_parts(case['base'])
             raw0 = pk.make_package(pspec)
             doc = load(io.BytesIO(raw0))
-            top = mirror_of_loaded(doc)
+            top = mirror_of_loaded(doc, pk.dedup_keys(pspec['manifest']))
             if not oracle_only:
                 ans = drv.ask(pk.load_request(pspec, nonempty))
                 chk.corr()
                 impl = 'ok ' + ' '.join(top.tokens())
                 model = ans.split(' ; ')[0]
                 if impl != model:
-                    chk.corr_diff({'base': case['base']}, impl[:1500], model[:1500], 'document state after load()')
+                    chk.corr_diff({'base': case['base']}, *(pk.diff_window(impl, model) + ('document state after load()',)))
             top = build(ctx, case['doc'], top)
         else:
             ctx.nid = 0
             top = build(ctx, case['doc'])
-        raw, warns = pk.save_real(top.real)
-        arch = pk.read_archive(raw)
-        files = {}
-        marker_of = {}
-        for x in top.walk():
-            files.update(x.files); marker_of[x.id] = x.marker
+        refresh_folders(top)
+        chk.count('addobject_refused_duplicate_name', ctx.refused)
         if abnormal_ext(case['doc']):
             chk.count('file_name_with_abnormal_tail')      # regression input of fix 31ca861, inside the model again
-        if not oracle_only:
-            ans = drv.ask('save ' + ' '.join(top.tokens()))
-            if not ans.startswith('ok'):
-                chk.corr(); chk.corr_diff(case, 'archive of %d members' % len(arch.members), ans, 'driver refused the document')
-            else:
-                pk.compare_listing(chk, case, ans[3:], arch, files, marker_of, 'entry list + manifest of the saved package')
-        return pk.oracle_c03(arch, top, loaded), top, arch
+        bad = list(ctx.bad)
+
+        def save_and_check(what, sfx):
+            raw, warns = pk.save_real(top.real)
+            arch = pk.read_archive(raw)
+            files = {}
+            marker_of = {}
+            for x in top.walk():
+                files.update(x.files); marker_of[x.id] = x.marker
+            if not oracle_only:
+                ans = drv.ask('save ' + ' '.join(top.tokens()))
+                if not ans.startswith('ok'):
+                    chk.corr(); chk.corr_diff(case, 'archive of %d members' % len(arch.members), ans, 'driver refused the document')
+                else:
+                    pk.compare_listing(chk, case, ans[3:], arch, files, marker_of, what)
+            for sig, d in pk.oracle_c03(arch, top, loaded):
+                bad.append((sig + sfx, d))
+            return arch
+
+        arch = save_and_check('entry list + manifest of the saved package', '')
+        if case.get('again', True):
+            # the same document saved a second time in the same process, then changed (new thumbnail, one more picture in the
+            # top document and in its first object) and saved a third time: every save must stand on its own
+            save_and_check('entry list + manifest of the SECOND save of the same document', '-on-second-save')
+            chk.count('saved_twice')
+            top.thumb = b'THUMB-3'; top.real.addThumbnail(top.thumb)
+            apply_pics(ctx, top, [{'how': 'string', 'data': '0303', 'mt': u'image/png'}])
+            if top.kids:
+                apply_pics(ctx, top.kids[0], [{'how': 'named', 'name': u'Pictures/third.png', 'data': '0304', 'mt': u'image/gif'}])
+            arch = save_and_check('entry list + manifest of the save after changing thumbnail and pictures', '-on-third-save')
+        return bad, top, arch
     finally:
         ctx.close()
 
